@@ -390,6 +390,37 @@ def run(ctx):
                  % sorted(vals & completed), ctx.loc(f, st))
     if n_w < 3:
         raise AnalysisError('C03.R5: RegularAction.complete writes lost')
+    # the result decides the final state: success -> SUCCESS, cancel ->
+    # CANCELLED, anything else -> ERROR
+    want = {'states.SUCCESS': [('result.is_success()', True)],
+            'states.CANCELLED': [('result.is_success()', False),
+                                 ('result.is_cancel()', True)],
+            'states.ERROR': [('result.is_success()', False),
+                             ('result.is_cancel()', False)]}
+    seen = set()
+    for t, st in U.attr_stores(f.node):
+        if norm(t) != 'self.action_ex.state':
+            continue
+        v = norm(st.value)
+        seen.add(v)
+        sn = cfg.stmt_node(st)
+        r5.check(v in want and all(U.guarded(cfg, sn, p_, t_)
+                                   for p_, t_ in want[v]),
+                 ctx.construct(f, extra='result -> ' + v),
+                 'the action state %s is not stored exactly for the matching '
+                 'kind of result' % v, ctx.loc(f, st))
+    r5.check(seen == set(want), ctx.construct(f, extra='three outcomes'),
+             'results are mapped to %s, expected SUCCESS / CANCELLED / ERROR'
+             % sorted(seen), ctx.loc(f))
+    acc = [st for t, st in U.attr_stores(f.node)
+           if norm(t) == 'self.action_ex.accepted']
+    r5.check(len(acc) == 1 and norm(acc[0].value) == 'True' and
+             all(t_ is False and U.phas(a_, 'states.is_completed('
+                                        'self.action_ex.state)')
+                 for a_, t_ in U.guard_atoms(cfg, cfg.stmt_node(acc[0]))),
+             ctx.construct(f, extra='accepted'),
+             'a completed action is not unconditionally marked accepted',
+             ctx.loc(f))
     # the rejection raises something the handler does not swallow
     raised = []
     for x in cfg.nodes:
